@@ -51,6 +51,16 @@ def cases(rng, tier):
             nq = rng.choice([1, 2, 3, 4, 9, 12])
             letters = rng.choice(["IIXYZ", "IZ", "XYZ", "I", "IXYZ"])
             subobs.append(["".join(rng.choice(letters) for _ in range(nq)) for _ in range(nobs)])
+        if nparts >= 2 and rng.random() < 0.35:
+            # two partitions with the same *set* of sub-observables listed in a different order (several commuting groups)
+            nq = rng.choice([2, 3])
+            base = rng.sample(["".join(p_) for p_ in __import__("itertools").product("XYZ", repeat=nq)], min(nobs, 3))
+            while len(base) < nobs:
+                base.append(rng.choice(base))
+            subobs[0] = list(base)
+            subobs[1] = list(base)
+            while subobs[1] == subobs[0] and len(set(base)) > 1:
+                rng.shuffle(subobs[1])
         ncoef = rng.randint(1, 6)
         coeffs = [frac(Fraction(rng.randint(-48, 48), 16)) for _ in range(ncoef)]
         v = rng.choice(["v1shots", "v1shots", "v1free", "v2"])
